@@ -46,8 +46,13 @@ def c06_peel(F, R):
     A.peel_ok(F, R)
 
 
+def cmp_zip(F, R):
+    O.r_zip_byref(F, R, names=("eq", "ne", "partial_cmp", "cmp", "lt", "le", "gt", "ge"))
+
+
 CS_ONLY = {"CollapseSequence"}
 FS_ONLY = {"FlatStack", "Iter"}
+INDEX_ONLY = {"IndexOptimized", "IndexList", "Stride"}
 CODEC_ONLY = {"CodecRegion"}
 HUFF_ONLY = {"HuffmanContainer"}
 DENSE_ONLY = {"ConsecutiveIndexPairs", "ColumnsRegion"}
@@ -58,7 +63,7 @@ PROPS = {
     "C01": {
         "rules": [BR.r_bracket, BR.r_reader_writer, BR.r_fanout, BR.r_columns, FW.r_forward,
                   todo({"push", "index"}, ("Region", "Push")), X.r_iter_readitems,
-                  A.r_freeze, A.r_reject_stored, I.r_concat, CD.r_tags, CD.r_bitmap, CD.r_literal_guard],
+                  A.r_freeze, A.r_foreign_writers, A.r_reject_stored, I.r_concat, CD.r_tags, CD.r_bitmap, CD.r_literal_guard],
         "explanation": "Static analysis of the un-instantiated MIR of every Push/Region impl: decides the structural necessary conditions of the round trip for all instantiations and paths, not the value equality itself.",
         "decided": [
             "R-BRACKET: every non-forwarding push of a (start,end)/position-indexed storage returns (len before its appends, len after) resp. len-1-seed, with exactly the appends on that storage in between",
@@ -73,7 +78,7 @@ PROPS = {
         "not_decided": ["element-for-element equality of values, NaN/ZST/extreme values, panics inside std", COMMON_ND],
     },
     "C02": {
-        "rules": [A.r_append, A.r_freeze, A.r_reject_stored, I.r_concat, CO.r_collapse_push],
+        "rules": [A.r_append, A.r_freeze, A.r_foreign_writers, A.r_reject_stored, I.r_concat, CO.r_collapse_push],
         "thorough": [X.witness("C02")],
         "explanation": "Every body reachable from the write/reserve API (closures and local helpers included) is scanned for destructive, clearing or replacing effects on item storage; the one Vec::pop is justified by R-PEEL; the representation switches are guarded (R-GUARD).",
         "decided": [
@@ -85,21 +90,22 @@ PROPS = {
         "not_decided": ["that Stride's in-place state transition preserves earlier elements (value-level; C05)", "bit arithmetic of the Huffman cursor", COMMON_ND],
     },
     "C03": {
-        "rules": [FS.r_pairing, FS.r_delegation, only(L.r_reset, {"FlatStack"}), only(L.r_clone, FS_ONLY),
-                  B.r_index_failstop, B.r_bound_stride_sites, A.r_freeze, I.r_concat, I.r_stride_iter],
+        "rules": [FS.r_pairing, FS.r_delegation, only(L.r_reset, {"FlatStack"}), only(L.r_clone, FS_ONLY | INDEX_ONLY),
+                  B.r_index_failstop, B.r_bound_stride_sites, A.r_freeze, A.r_foreign_writers, I.r_concat, I.r_stride_iter],
         "thorough": [X.witness("C03")],
         "explanation": "FlatStack's pairing of region indices with the index container and its delegation table are checked on the MIR for every R and S.",
         "decided": [
             "R-PAIRING: in copy/extend every region.push result flows unchanged into exactly one indices.push on every path; from_iter = with_capacity + extend",
             "R-DELEGATE / R-ITER: len, is_empty, get, iter, into_iter, Iter::next, size_hint delegate with unchanged arguments",
-            "R-RESET, R-CLONE for FlatStack and its Iter",
+            "R-RESET, R-CLONE for FlatStack, its Iter and the index containers a stack stores its indices in (a hand-written clone/clone_from must copy every field on every path)",
+            "R-ITER: every method of the concatenating index iterators other than next (nth/fold/last overrides) consumes the second part only once the first is exhausted",
             "R-BOUND: every IndexContainer::index impl ends in a bounds-checked or strictly guarded access (get(i) is fail-stop)",
         ],
         "not_decided": ["equality of yielded values (C01/C05)", COMMON_ND],
     },
     "C04": {
         "rules": [S.r_unsafe, S.r_strwrite, only(BR.r_bracket, {"OwnedRegion", "ConsecutiveIndexPairs"}),
-                  BR.r_reader_writer, CD.r_tags, CD.r_bitmap, CD.r_literal_guard],
+                  BR.r_reader_writer, CD.r_tags, CD.r_bitmap, CD.r_literal_guard, L.r_clone],
         "thorough": [X.witness("C04")],
         "explanation": "Program-text property: inventory of unchecked str constructions and of everything that can write StringRegion's byte region, over the type-checked crate.",
         "decided": [
@@ -107,11 +113,12 @@ PROPS = {
             "R-STRWRITE: every byte push into StringRegion.inner is str::as_bytes(..) of a string-typed item; the field is private; no method hands out &mut to it; lifecycle methods only reserve/clear/clone it; DictionaryCodec::decode returns its argument or a whole dictionary entry",
             "compile-fail witnesses: pushing byte types into a StringRegion does not type-check",
             "byte offsets are push boundaries: R-BRACKET for OwnedRegion and ConsecutiveIndexPairs, R-READER for every bracket-indexed index(); dictionary reader/writer tables agree (R-TAGS/R-BITMAP/R-GUARD), so a decoded entry is a whole pushed string",
+            "R-CLONE: hand-written clone/clone_from of every region and offset container copy every field on every path (a copy with stale offsets would cut a string in the middle of a character)",
         ],
         "not_decided": ["that the inner byte region returns exactly the pushed byte range (C01/C02 clauses)", "deserialising foreign data"],
     },
     "C05": {
-        "rules": [I.r_ovf, I.r_panic_edges, I.r_nowrite_on_reject, A.r_freeze, A.r_reject_stored, I.r_concat, I.r_stride_iter,
+        "rules": [I.r_ovf, I.r_panic_edges, I.r_nowrite_on_reject, A.r_freeze, A.r_foreign_writers, A.r_reject_stored, I.r_concat, I.r_stride_iter,
                   B.r_bound_stride_sites, B.r_index_failstop, only(L.r_reset, {"Stride", "IndexList", "IndexOptimized"})],
         "explanation": "Overflow-checked arithmetic is visible in MIR as Assert(Overflow) terminators; taint from pushed values is propagated through the Stride state; the representation order of the two-level containers is checked for agreement between push, index, len, is_empty, iter and clear.",
         "decided": [
@@ -125,7 +132,7 @@ PROPS = {
     },
     "C06": {
         "rules": [HF.r_refusal, HF.r_code_source, HF.r_stats_and_arms, only(BR.r_bracket, HUFF_ONLY), c06_peel,
-                  only(L.r_reset, HUFF_ONLY), FW.r_forward, HF.r_shift],
+                  only(L.r_reset, HUFF_ONLY), FW.r_forward, HF.r_shift, HF.r_descent],
         "explanation": "Only the structural clauses of the Huffman contract are decided; exact decoding, optimality and alphabet-size behaviour are numeric and stay undecided.",
         "decided": [
             "R-REFUSE: a symbol without a code reaches only a panicking unwrap, never a substitute code",
@@ -134,12 +141,13 @@ PROPS = {
             "R-BRACKET / R-PEEL: bit-range bracketing of push_symbols and the peel/re-emit of the partial byte",
             "R-RESET: default() and clear() fall back to raw storage with empty stats",
             "R-SHIFT: interval analysis of every overflow-checked shift whose amount is local scalar arithmetic (%, const-, min): the amount stays below the operand width",
+            "R-DESCENT: in Decoder::next (helpers inlined) every table lookup that can run after a descent into a nested table indexes the descended table variable, never the root table alone",
         ],
         "not_decided": ["exact decode at every bit alignment, code optimality, >= 1 bit per symbol (the single-symbol alphabet hangs/panics: observed, not decidable here), > 256 symbols", COMMON_ND],
     },
     "C07": {
         "rules": [CD.r_literal_guard, CD.r_emptiness, CD.r_tags, CD.r_bitmap, CD.r_stats,
-                  only(L.r_reset, CODEC_ONLY | {"DictionaryCodec"}), only(L.r_fresh, CODEC_ONLY)],
+                  only(L.r_reset, CODEC_ONLY | {"DictionaryCodec"}), only(L.r_fresh, CODEC_ONLY), CD.r_dedup],
         "explanation": "Reader/writer table agreement and guard placement of the dictionary codec are decided on the MIR; selection quality of the heavy hitters is not.",
         "decided": [
             "R-GUARD: the literal store is reachable only over an edge that saw an empty input or an unassigned first byte in the reader's table",
@@ -148,6 +156,7 @@ PROPS = {
             "R-BITMAP: recording and testing the first-byte bitmap use the same word/bit functions",
             "R-STATS: every accepted input (tag hit or literal) enters the heavy-hitter summary and the first-byte bitmap",
             "dictionary hit stores exactly the tag byte; CodecRegion::clear resets the codec; merge_regions builds it via Codec::new_from",
+            "R-DEDUP: a Vec::dedup_by closure that merges duplicates writes into the element dedup_by keeps (its second parameter); zero instances on the pinned tree, exercised by seeded change C07_c1",
         ],
         "not_decided": ["heavy-hitter selection quality, Misra-Gries arithmetic", COMMON_ND],
     },
@@ -182,7 +191,7 @@ PROPS = {
     "C12": {
         "rules": [only(BR.r_bracket, DENSE_ONLY), only(L.r_seed, DENSE_ONLY), only(L.r_reset, DENSE_ONLY),
                   BR.r_reader_writer, BR.r_columns, only(A.r_append, DENSE_ONLY), only(L.r_fresh, DENSE_ONLY),
-                  BR.r_bracket, A.r_freeze, A.r_reject_stored, I.r_concat],
+                  BR.r_bracket, A.r_freeze, A.r_foreign_writers, A.r_reject_stored, I.r_concat],
         "explanation": "Dense indices follow from one append of the end offset per push, the seeded leading 0 and index(k) = (offsets[k], offsets[k+1]).",
         "decided": ["R-BRACKET with seed 1 for ConsecutiveIndexPairs", "R-SEED: exactly one leading 0 in default/merge_regions/clear", "R-READER: index(k) reads offsets k and k+1 in order",
                     "R-COLUMNS: ColumnsRegion returns the inner dense index unchanged, creates missing columns first, rows carry exactly their own index slice",
@@ -205,17 +214,21 @@ PROPS = {
         "not_decided": ["equality of the results"],
     },
     "C15": {
-        "rules": [CMP.r_cmp],
+        "rules": [CMP.r_cmp, cmp_zip],
         "explanation": "Comparison impls must delegate to the matching comparator family with self/other in order in every arm.",
-        "decided": ["R-CMP for ReadSlice and Wrapped"],
-        "not_decided": ["lexicographic semantics of Iterator::cmp (trusted std), user Ord laws"],
+        "decided": ["R-CMP for ReadSlice, ReadColumns and Wrapped: every comparator call is of the impl's own family, takes the self-side first and the other-side second, no skipping/reversing adaptor, result returned unchanged",
+                    "R-ZIP: a hand-rolled lock-step comparison does not put a by_ref() iterator that is polled again afterwards on the left of zip (zip takes from its left side before it learns the right side ended)"],
+        "not_decided": ["lexicographic semantics of Iterator::cmp (trusted std), user Ord laws",
+                        "hand-written element loops without a comparator call, and fast paths that compare the encoded representation instead of the decoded elements (whether two encodings are equal exactly when the values are is value-level; seeded change C15_c3 is not detected)"],
     },
     "C16": {
-        "rules": [SD.r_serde],
+        "rules": [SD.r_serde, A.r_foreign_writers],
         "thorough": [X.witness("C16")],
         "explanation": "The serde-derive output is ordinary MIR: every field must be handed to the serializer unconditionally and rebuilt from the input without defaults.",
-        "decided": ["R-SERDE for every type with a derived Serialize"],
-        "not_decided": ["the data format; behaviour of the copy (follows from state equality + determinism)"],
+        "decided": ["R-SERDE for every type with a derived Serialize",
+                    "R-GUARD (foreign writers): code outside a two-level index container's own push (a hand-written deserialisation visitor, a bulk path) that appends to its first level in a loop which also appends to the second level must test that the second level is empty"],
+        "not_decided": ["the data format; behaviour of the copy (follows from state equality + determinism)",
+                        "hand-written Serialize/Deserialize impls beyond that structural clause (their wire format is value-level)"],
         "assumptions": ["only meaningful in the serde feature configuration"],
     },
     "C17": {
@@ -240,9 +253,10 @@ PROPS = {
         "not_decided": ["that Stride::push accepts every strided/saturated sequence (value-level)"],
     },
     "C20": {
-        "rules": [FW.r_forward, FW.r_sibling, FW.r_pushstorage],
-        "explanation": "Forwarding impls pass the same value on through representation-preserving conversions; canonical impls of one region have the same effect signature.",
-        "decided": ["R-FORWARD", "R-SIBLING", "PushStorage forms are all append-class"],
+        "rules": [FW.r_forward, FW.r_sibling, FW.r_pushstorage, A.r_freeze, A.r_foreign_writers, A.r_reject_stored],
+        "explanation": "Forwarding impls pass the same value on through representation-preserving conversions; canonical impls of one region have the same effect signature; the bulk path of the offset containers (IndexContainer::extend, used by the slice/Vec/array forms) obeys the same representation-switch guards as the element-wise push (used by the read-item form).",
+        "decided": ["R-FORWARD", "R-SIBLING", "PushStorage forms are all append-class",
+                    "R-GUARD: bulk and element-wise writes of the two-level offset containers append to the first level only while the second is empty (a guard hoisted out of a loop that spills goes stale and is not accepted), and a value the stride rejects is stored in the spill list"],
         "not_decided": ["value equality of the stored bytes"],
     },
 }
